@@ -13,6 +13,7 @@ def run(chk):
     pyrules.r08_python(chk)
     pyrules.check_conn_cache(chk, 'R08.8')
     pyrules.check_assembly_fint_accumulator(chk, 'R08.9')
+    pyrules.check_one_laminate_matrix(chk, 'R08.10')
     chk.explanation = ('calc_fint, fkL_num and fkG_num are lowered to polynomials over point atoms and '
                        'strain accumulators; fint is compared with sigma.d(eps)/dc, kL with the Gauss-Newton '
                        'form, and d(fint)/dc (symbolic derivative of the extracted fint) with kL+kG block by block')
